@@ -97,6 +97,8 @@ def unchanged(xs, snap):
 
 
 def xarraylike_params(fn):
+    if fn is True:
+        return True
     try:
         sig = inspect.signature(fn)
     except (TypeError, ValueError):
